@@ -1522,7 +1522,10 @@ let cstep cf n0 w p s = function
        in
        Some (set_ep s2 (ep_tick cf s.cEp))
   else None
-| XPause -> Some (set_ep (feedA cf s EPause) (ep_pause s.cEp))
+| XPause ->
+  (match s.cEp with
+   | EpResumed (_, _) -> None
+   | _ -> Some (set_ep (feedA cf s EPause) (ep_pause s.cEp)))
 | XResume ->
   (match s.cEp with
    | EpPausing e ->
